@@ -1076,6 +1076,9 @@ package plenccodec
 //@   loop 1 step[C08] count == head_count || count == head_count + 1
 //@   # a recorded field was given a codec by the builder and a tag made of that codec's wire type and the field's index
 //@   loop 1 step[C08,C02] count == head_count + 1 ==> called_CodecBuilder_CodecForTypeRegistry && call_CodecBuilder_CodecForTypeRegistry_r1 == nil && called_AppendTag && call_AppendTag_arg2 == c.fields[head_count].index
+//@   # the name recorded for the descriptor: the name part of the json tag when it has one, otherwise the Go field name
+//@   loop 1 step[C14] count == head_count + 1 && called_Cut ==> (len(call_Cut_r0) != 0 ==> c.fields[head_count].name == call_Cut_r0) && (len(call_Cut_r0) == 0 ==> c.fields[head_count].name == call_Type_Field_r0.Name)
+//@   loop 1 step[C14] count == head_count + 1 ==> called_Cut && c.fields[head_count].index == call_Atoi_r0 && c.fields[head_count].offset == call_Type_Field_r0.Offset
 //@   loop 2 invariant[C08] len(c.fieldsByIndex) == maxIndex + 1 && rangelen == len(c.fields)
 //@   loop 2 invariant[C08] forall k int :: 0 <= k && k < len(c.fields) ==> 0 <= c.fields[k].index && c.fields[k].index <= maxIndex
 //@   loop 2 decreases rangelen - rangeindex
